@@ -79,6 +79,11 @@ def _check_detachable(values: Iterable[base.RawModel]) -> None:
         seen.add(id(value))
 
 
+def check_detachable(values: Iterable[Optional[base.RawModel]]) -> None:
+    """For constructors: all children are checked before any of them is consumed (absent ones are skipped)."""
+    _check_detachable([value for value in values if value is not None])
+
+
 class RepeatedNodeWrapperUpdateHandler(abc.ABC):
 
     @abc.abstractmethod
